@@ -269,7 +269,21 @@ DoIndep ==
                       bv |-> RedVars[b][1], dv |-> fi[d][1]])
             IN Admissible(t) /\ Push(t)
 
-Next == AddLeaf \/ DoUn \/ DoBin \/ DoGetitem \/ DoRed \/ DoSub \/ DoLam \/ DoStack
+\* a Contraction node built directly: red over a subset of RedVars (present in all, some
+\* or none of the operands) of the bin-product of the newest term with 1 or 2 others
+DoCon ==
+  /\ "Con" \in Acts /\ CanStep /\ Len(pool) >= 2
+  /\ \E r \in 1..Len(RedOps), b \in 1..Len(BinOps), mask \in 0..(IPow(2, Len(RedVars)) - 1),
+        j \in 1..(Len(pool) - 1), k \in 0..(Len(pool) - 1) :
+       /\ k # j
+       /\ LET ts == IF k = 0 THEN <<pool[j], Last>> ELSE <<pool[j], Last, pool[k]>>
+              t == Mk([c |-> "Con", red |-> IF mask = 0 THEN "nullop" ELSE RedOps[r],
+                       bin |-> BinOps[b].n, vars |-> SubSeqByMask(RedVars, mask), terms |-> ts])
+          IN /\ mask = 0 => r = 1
+             /\ \A x, y \in 1..Len(ts) : SharedAgree(ts[x].ti, ts[y].ti)
+             /\ Admissible(t) /\ Push(t)
+
+Next == DoCon \/ AddLeaf \/ DoUn \/ DoBin \/ DoGetitem \/ DoRed \/ DoSub \/ DoLam \/ DoStack
         \/ DoCat \/ DoAlign \/ DoIndep
 
 Init == pool = <<>> /\ nops = 0
